@@ -3,6 +3,7 @@ module github.com/advancedclimatesystems/gonnx
 go 1.21
 
 require (
+	github.com/chewxy/math32 v1.10.1
 	github.com/stretchr/testify v1.8.1
 	google.golang.org/protobuf v1.31.0
 	gorgonia.org/tensor v0.9.24
@@ -11,7 +12,6 @@ require (
 require (
 	github.com/apache/arrow/go/arrow v0.0.0-20211112161151-bc219186db40 // indirect
 	github.com/chewxy/hm v1.0.0 // indirect
-	github.com/chewxy/math32 v1.10.1 // indirect
 	github.com/davecgh/go-spew v1.1.1 // indirect
 	github.com/gogo/protobuf v1.3.2 // indirect
 	github.com/golang/protobuf v1.5.3 // indirect
